@@ -80,6 +80,12 @@ def check(ck):
         _input_wrappers(ck, repo)
     with ck.rule("R6"):
         _input_object(ck, repo)
+    # the leaves: what a built-in scalar accepts from a variable (Int refuses booleans, fractions and out-of-range numbers ...)
+    with ck.rule("R8"):
+        from .. import scalars
+        scalars.check_wire_types(ck, repo, directions=("coerce_input",))
+        scalars.check_guards(ck, repo, directions=("coerce_input",))
+        scalars.check_failure_exits(ck, repo, directions=("coerce_input",))
     with ck.rule("R7"):
         f = repo.func(VARS, "variable_coercer")
         p = f.positional_params
